@@ -25,7 +25,7 @@ ASSUMPTIONS = ["trailing whitespace of a displayed line is not compared (it is i
                "non-blank characters of the line are compared (wrapping re-flows whitespace)",
                "blank lines at the very end are not compared (the statement excludes them)",
                "Pygments lexers return the characters they are given (trusted third-party component)"]
-REQUIRED = ["mon.syntax_object_rendered_again", "mon.from_path", "mon.syntax_lines", "mon.syntax_numbers", "mon.syntax_range", "mon.traceback_frames"]
+REQUIRED = ["mon.syntax_word_at_the_edge_of_the_code_column", "mon.syntax_object_rendered_again", "mon.from_path", "mon.syntax_lines", "mon.syntax_numbers", "mon.syntax_range", "mon.traceback_frames"]
 MIN_NONTRIVIAL = {"quick": 1500, "thorough": 80000}
 
 PY_LINES = ["import os", "def f(x):", "    return x + 1", "class A:", "    pass", "x = [1, 2, 3]", "# comment 漢字",
@@ -138,6 +138,20 @@ def wl_syntax(ctx, rng, case_no):
     if rng.random() < 0.4:
         opts["highlight_lines"] = {rng.randint(1, nsrc + 2) for _ in range(rng.randint(1, 3))}
     width = rng.choice([30, 60, 80, 120, 200])
+    if opts["word_wrap"] and lexer in ("python", "text", "nosuchlexer") and case_no % 3 == 0:
+        # lines built around the edge of the code column: a word that cannot fit on any row, starting exactly where the
+        # row is full, one cell before, one after ... (the gutter's width is not known here, so a range of offsets)
+        import random as _random
+        r2 = _random.Random("edge/%d" % case_no)
+        cw = opts["code_width"] or (width - (len(str(opts["start_line"] + nsrc + 8)) + 2 if opts["line_numbers"] else 0))
+        extra = []
+        for L in range(max(2, cw - 4), cw + 2):
+            lead = r2.choice(["v", "w"]) * (L - 1) + " "
+            token = r2.choice(["'" + "q" * (cw + r2.randint(1, 9)) + "'", "漢字" * (cw // 2 + 2), "z" * (2 * cw + 3)])
+            extra.append(lead + token)
+        code = code + ("" if code.endswith("\n") or not code else "\n") + "\n".join(extra) + "\n"
+        nsrc = len(code.split("\n"))
+        ctx.count("mon.syntax_word_at_the_edge_of_the_code_column")
     console = consoles.layout_console(width, legacy=rng.random() < 0.1, ascii_only=rng.random() < 0.1)
     wit = {"code": code, "lexer": lexer, "options": {k: (sorted(v) if isinstance(v, set) else v) for k, v in opts.items()},
            "width": width}
